@@ -249,6 +249,9 @@ func generated() []prog {
 		}
 		add(f.name+"@"+ctx, src)
 	}
+	// compact spellings (no blanks around operators): a base layout need not be gofmt-style
+	add("compact-operators", preamble+"c:=a-1\nd:=a -1\ne:=(a)-1+b*2\nf:=xs[b-1]+xs[b -1]\ng:=a<b&&b>1||ok\nprint(c,d,e,f,g,a+-1,a- -1,s+t)\nfor k:=0;k<2;k++{\n\tif k==a-7{\n\t\tprint(k-1,xs[k]-1)\n\t}\n}\n")
+	add("multi-line-raw-string-and-comment", preamble+"/* a block comment\n   over two lines */ m := `first\nsecond\n\nfourth`\nprint(len(m), m)\nprint(m == \"first\\nsecond\\n\\nfourth\")\n")
 	for _, f := range topForms {
 		src := f.code
 		if f.name != "empty-program" && f.name != "no-final-newline" && !strings.HasSuffix(src, "\n") {
